@@ -15,7 +15,7 @@ func init() {
 		Explanation: "Claimed NARROWLY. Decided: the structural skeleton that makes the free list independent of how it was obtained — a free list rebuilt by scanning enumerates exactly the page ids in [2, high-water mark) that the walk from the current root did not reach (freepages); " +
 			"loading picks 'read the persisted page' vs 'rebuild by scanning' by one predicate (hasSyncedFreelist), exactly once; Open flushes a missing free list when NoFreelistSync is off, so a file can be re-opened under the other setting; the rollback reload uses the same predicate; " +
 			"both NoFreelistSync arms of Commit redefine the meta's freelist pointer; the two backends share one policy implementation and a re-initialised backend forgets its previous content; syncs are skipped only under NoSync. " +
-			"NOT decided (the bulk of the property): equality of logical content and API results across option assignments and reopen schedules, and that the rebuilt list EQUALS the persisted one — relations between runtime contents.",
+			"NOT decided (the bulk of the property): equality of logical content and API results across option assignments and reopen schedules, and that the rebuilt list EQUALS the persisted one — relations between runtime contents. Round 3: each option reaches the DB switch of the same name in Open.",
 		Run: func(c *Ctx) {
 			ruleOptionsWiredByName(c, "C13.R11") // each option reaches the switch of the same name
 			c13R1(c, "C13.R1")
